@@ -695,11 +695,11 @@ func (c *CharSet) addCategory(categoryName string, negate, caseInsensitive bool)
 	}
 
 	if caseInsensitive && (categoryName == "Ll" || categoryName == "Lu" || categoryName == "Lt") {
-		// when RegexOptions.IgnoreCase is specified then {Ll} {Lu} and {Lt} cases should all match
-		c.addCategories(
-			Category{Cat: "Ll", Negate: negate},
-			Category{Cat: "Lu", Negate: negate},
-			Category{Cat: "Lt", Negate: negate})
+		// when RegexOptions.IgnoreCase is specified then {Ll} {Lu} and {Lt} cases should all match:
+		// the cased letters LC = Lu|Ll|Lt as ONE category, so that the negated form is the complement
+		// of all three (three separately negated categories would union to everything)
+		c.addCategories(Category{Cat: "LC", Negate: negate})
+		return
 	}
 	c.addCategories(Category{Cat: categoryName, Negate: negate})
 }
